@@ -480,17 +480,27 @@ def run_lockstep(case, workdir, stop_on_violation=False, spec_hook=None):
         for i, ev in enumerate(case["events"]):
             if ev[0] == "sleep":
                 time.sleep(ev[1])
-                try:
-                    o1, _, _ = d.barrier()
-                    o2, in_use, _ = d.barrier()
-                except dm.DaemonDied as e:
-                    tr.died = True
-                    break
-                out = [b.decode("latin-1") for b in o1 + o2]
-                spec.feed_sleep(i)
-                tr.steps.append(("(sleep %.1fs)" % ev[1], out, in_use))
+                # what the expired timers made the daemon say must already be on the channel, before the server
+                # sends anything else (a verdict that only appears once more input arrives may come too late)
+                o0 = d.drain(settle=0.4 if len(ev) > 2 else 0.05)
+                in_use = None
+                o1 = o2 = []
+                if not (len(ev) > 2 and ev[2] == "quiet"):
+                    try:
+                        o1, _, _ = d.barrier()
+                        o2, in_use, _ = d.barrier()
+                    except dm.DaemonDied as e:
+                        tr.died = True
+                        break
+                    except dm.DaemonHang:
+                        tr.hang = True
+                        break
+                out = [b.decode("latin-1") for b in o0 + o1 + o2]
+                spec.feed_sleep(i, ev[1])
+                tr.steps.append(("(sleep %.1fs%s)" % (ev[1], " quiet" if in_use is None else ""), out, in_use))
                 spec.feed_output(i, out)
-                spec.check_in_use(in_use)
+                if in_use is not None:
+                    spec.check_in_use(in_use)
                 continue
             if ev[0] == "reconf":
                 curconf = dict(curconf, **ev[1])
@@ -580,7 +590,16 @@ def timer_s(draw, pid, tier):
             if mode == "complete":
                 sc.extend(completion(draw, cid, conf, sc, rk, (7, 2)))
         ev.extend(sc)
-    ev.append(["sleep", 1.35])
+    if draw(st.booleans()):
+        # nothing is sent during or right after the wait (no barrier): the next thing the server says is that it
+        # withdraws or has registered some of the clients whose timers have just expired
+        ev.append(["sleep", 1.6, "quiet"])
+        for cid in draw(st.permutations(sorted(set(ids)))):
+            ev.append([draw(st.sampled_from(["D", "T", "D", "H", "n"])), cid] if True else None)
+            if ev[-1][0] == "n":
+                ev[-1].append("Late")
+    else:
+        ev.append(["sleep", 1.35])
     for _ in range(draw(st.integers(0, 6))):
         ev.append(draw(event_s(draw(st.sampled_from(ids)), conf, kinds, rk, (7, 2))))
     if draw(st.booleans()):
@@ -787,7 +806,43 @@ def _enum_worker(args):
     return n, nt, fails, samples
 
 
+def _aged_worker(args):
+    """C10: the 16 'requests older than ten seconds' scenarios of C09, judged by C10's oracle (counter, clean exit)."""
+    widx, nw = args
+    import eng_proto2 as ep2
+    ctx = make_context("C10", "quick", 400 + widx, {})
+    n = 0
+    fails, samples = [], []
+    try:
+        for i, case in enumerate(ep2.c09_aged_cases()):
+            if i % nw != widx:
+                continue
+            r = evaluate(case, ctx)
+            n += 1
+            if i == 3:
+                samples.append(case)
+            for v in r.violations:
+                if v.pid == "C10" and len(fails) < 2:
+                    fails.append({"case": case, "sig": v.sig, "msg": v.msg})
+                    break
+    finally:
+        close_context(ctx)
+    return n, n, fails, samples
+
+
 def extra_phase(pid, tier, seed):
+    if pid == "C10":
+        nw = vc.NCPU
+        with _mp.get_context("fork").Pool(nw) as pool:
+            rs = pool.map(_aged_worker, [(w, nw) for w in range(nw)])
+        out = {"evaluations": 0, "nontrivial": 0, "fails": [], "classes": {}, "samples": [], "exhaustive_scope": None}
+        for n, nt, fails, samples in rs:
+            out["evaluations"] += n
+            out["nontrivial"] += nt
+            out["fails"].extend(fails)
+            out["samples"].extend(samples)
+        out["classes"]["requests_pending_over_10s_real_time"] = out["evaluations"]
+        return out
     which = {"C02": "timeout", "C03": "timeout", "C06": "order"}.get(pid)
     if which is None:
         return None
